@@ -766,6 +766,14 @@ impl ReaderToken {
     pub fn is_readonly(&self) -> bool {
         self.concurrency_level == ConcurrencyLevel::NoWriteReadOnly
     }
+
+    /// Returns true if this token was issued by `manager`.
+    #[inline]
+    pub(crate) fn issued_by(&self, manager: &VersionManager) -> bool {
+        self.release_callback
+            .as_ref()
+            .is_some_and(|cb| std::ptr::eq(cb.version_manager, manager))
+    }
 }
 
 impl Drop for ReaderToken {
@@ -847,6 +855,14 @@ impl WriterToken {
     #[inline]
     pub fn allows_concurrent_writers(&self) -> bool {
         self.concurrency_level.allows_concurrent_writers()
+    }
+
+    /// Returns true if this token was issued by `manager`.
+    #[inline]
+    pub(crate) fn issued_by(&self, manager: &VersionManager) -> bool {
+        self.release_callback
+            .as_ref()
+            .is_some_and(|cb| std::ptr::eq(cb.version_manager, manager))
     }
 }
 
